@@ -330,10 +330,13 @@ class ActivityPlugin(Plugin):
 
         :param session: SQLAlchemy session object
         """
-        return any(isinstance(obj, self.activity_cls) for obj in session)
+        # Only activities that are about to be inserted count: activities of
+        # earlier transactions that are still referenced by the session must
+        # neither create a transaction record nor be stamped again.
+        return any(isinstance(obj, self.activity_cls) for obj in session.new)
 
     def before_flush(self, uow, session):
-        for obj in session:
+        for obj in session.new:
             if isinstance(obj, self.activity_cls):
                 obj.transaction = uow.current_transaction
                 obj.calculate_target_tx_id()
